@@ -130,7 +130,9 @@ let handle_verify kind keys o tok sv hp pp =
     | _, Some (pb, r) when pb = b -> r
     | _ -> failwith "json_parse asked on bytes the harness did not decode" in
   let keys = if kind = "J" then jwk_roundtrip keys else keys in
-  (if kind = "J" then "priv=refused;" else "") ^ show_result (verify sig_valid json_parse keys o tok)
+  let jwk_shape = String.concat "," (List.map (fun k ->
+      string_of_bytes k.kalg ^ "." ^ (match k.kkid with KCustom c -> hexs c | _ -> "~")) keys) in
+  (if kind = "J" then "priv=refused jwk=" ^ jwk_shape ^ " " else "") ^ show_result (verify sig_valid json_parse keys o tok)
 
 (* toy oracles for the encode round trip *)
 let handle_encode key ropts o =
